@@ -46,7 +46,7 @@ Definition pin_fingerprints : list (string * string) := [
   ("ImageBatch.__len__"%string, "a38c3cc6289bad9442a6"%string);
   ("ImageBatch.__getitem__"%string, "071a0e5a40a155696792"%string);
   ("ImageBatch.__iter__"%string, "2c1cc4f9d679bd2cf7cf"%string);
-  ("ImageBatch.narrow"%string, "339d691b60b390626365"%string);
+  ("ImageBatch.narrow"%string, "ed8b866296e54a784007"%string);
   ("Image.__init__"%string, "af9e2701fa57f8a4a40e"%string);
   ("Image._make_instance"%string, "89631b5d671a6c59fc9c"%string);
   ("Image.__deepcopy__"%string, "f3b9750ca0ba5f1d432c"%string);
